@@ -60,7 +60,10 @@ type CRes struct {
 	Coll    []any
 	Err     *ErrObj
 	Deleted bool
-	iv      *Interval
+	// Ambiguous: the gateway sent an error entry for this rid while the client
+	// held data for it; which of the two a client keeps is not specified
+	Ambiguous bool
+	iv        *Interval
 }
 
 // Interval is a holding interval of (client, rid) for C03.
@@ -118,11 +121,19 @@ type Client struct {
 	// unsubscribe accepted on a provisional count): from then on the frame-driven
 	// model and the gateway legitimately disagree about this connection.
 	Tainted string
+	Failed  string
+	// F3rids: rids on which an unsubscribe request was accepted on a provisional count
+	F3rids      map[string]bool
+	failedProps map[string]bool
+	// getSet: rid -> index (in Frames) of the latest get response that delivered it
+	getSet map[string]int
+	// DeletedSeen: rids for which the client has received a delete event
+	DeletedSeen map[string]bool
 }
 
 func (s *Sim) newClient() *Client {
 	c := &Client{s: s, Idx: len(s.Clients), State: "new", Proto: protoLegacy, Reqs: map[uint64]*CReq{},
-		Direct: map[string]int{}, Fuzzy: map[string]bool{}, Cache: map[string]*CRes{}, Revoked: map[string]int{}, CIdx: -1}
+		F3rids: map[string]bool{}, getSet: map[string]int{}, DeletedSeen: map[string]bool{}, Direct: map[string]int{}, Fuzzy: map[string]bool{}, Cache: map[string]*CRes{}, Revoked: map[string]int{}, CIdx: -1}
 	c.Name = fmt.Sprintf("k%d", c.Idx)
 	s.Clients = append(s.Clients, c)
 	return c
@@ -320,27 +331,27 @@ func (c *Client) onFrame(raw string) {
 	s.stat("frames_received", 1)
 	var m map[string]json.RawMessage
 	if err := json.Unmarshal([]byte(raw), &m); err != nil {
-		s.violate("C07", "frame", "notjson", "client %s received a frame that is not a JSON object: %s", c.Name, raw)
+		c.violate("C07", "frame", "notjson", "client %s received a frame that is not a JSON object: %s", c.Name, raw)
 		return
 	}
 	if idb, ok := m["id"]; ok && string(idb) != "null" {
 		var id uint64
 		if err := json.Unmarshal(idb, &id); err != nil {
-			s.violate("C07", "a", "badid", "client %s received a response with a non-integer id: %s", c.Name, raw)
+			c.violate("C07", "a", "badid", "client %s received a response with a non-integer id: %s", c.Name, raw)
 			return
 		}
 		f.ID = &id
 		if e, ok := m["error"]; ok {
 			var eo map[string]any
 			if json.Unmarshal(e, &eo) != nil {
-				s.violate("C07", "b", "errshape", "client %s: error member is not an object: %s", c.Name, raw)
+				c.violate("C07", "b", "errshape", "client %s: error member is not an object: %s", c.Name, raw)
 				return
 			}
 			code, ok1 := eo["code"].(string)
 			msg, ok2 := eo["message"].(string)
 			f.Error = &ErrObj{Code: code, Message: msg, okTypes: ok1 && ok2}
 			if !ok1 || !ok2 {
-				s.violate("C07", "b", "errshape", "client %s: error object without string code and message: %s", c.Name, raw)
+				c.violate("C07", "b", "errshape", "client %s: error object without string code and message: %s", c.Name, raw)
 			}
 		} else {
 			f.HasRes = true
@@ -357,7 +368,7 @@ func (c *Client) onFrame(raw string) {
 		c.onEvent(f)
 		return
 	}
-	s.violate("C07", "frame", "unknown", "client %s received a frame that is neither response nor event: %s", c.Name, raw)
+	c.violate("C07", "frame", "unknown", "client %s received a frame that is neither response nor event: %s", c.Name, raw)
 }
 
 // ---- reference model ---------------------------------------------------
@@ -374,7 +385,7 @@ func (c *Client) addSet(rs *resourceSet, f *Frame) []string {
 	for _, rid := range sortedKeys(rs.Models) {
 		var m map[string]any
 		if err := json.Unmarshal(rs.Models[rid], &m); err != nil {
-			c.s.violate("C02", "set", "model", "client %s: model %s in resource set is not an object: %s", c.Name, rid, rs.Models[rid])
+			c.violate("C02", "set", "model", "client %s: model %s in resource set is not an object: %s", c.Name, rid, rs.Models[rid])
 			continue
 		}
 		c.store(rid, &CRes{Kind: 'm', Model: m}, f)
@@ -383,7 +394,7 @@ func (c *Client) addSet(rs *resourceSet, f *Frame) []string {
 	for _, rid := range sortedKeys(rs.Collections) {
 		var l []any
 		if err := json.Unmarshal(rs.Collections[rid], &l); err != nil {
-			c.s.violate("C02", "set", "collection", "client %s: collection %s in resource set is not an array: %s", c.Name, rid, rs.Collections[rid])
+			c.violate("C02", "set", "collection", "client %s: collection %s in resource set is not an array: %s", c.Name, rid, rs.Collections[rid])
 			continue
 		}
 		if l == nil {
@@ -395,6 +406,13 @@ func (c *Client) addSet(rs *resourceSet, f *Frame) []string {
 	for _, rid := range sortedKeys(rs.Errors) {
 		var e ErrObj
 		json.Unmarshal(rs.Errors[rid], &e)
+		if old := c.Cache[rid]; old != nil && old.Kind != 'e' {
+			// an error entry (e.g. the access error of a resource response) does
+			// not replace data the client already holds through another path
+			c.s.probe("error_entry_for_held_resource")
+			old.Ambiguous = true
+			continue
+		}
 		c.store(rid, &CRes{Kind: 'e', Err: &e}, f)
 		rids = append(rids, rid)
 	}
@@ -406,8 +424,12 @@ func (c *Client) store(rid string, r *CRes, f *Frame) {
 		c.s.probe("resource_resent_while_held")
 		c.closeInterval(old, "resent")
 	}
+	if c.DeletedSeen[rid] {
+		// a re-sent copy of a resource the client knows to be deleted stays deleted
+		r.Deleted = true
+	}
 	c.Cache[rid] = r
-	if r.Kind != 'e' {
+	if r.Kind != 'e' && !r.Deleted {
 		r.iv = &Interval{RID: rid, Kind: r.Kind, Snapshot: c.resJSON(r), StartStep: f.Step, StartCut: f.Cut, Proto: c.Proto}
 		c.Ivs = append(c.Ivs, r.iv)
 	}
@@ -479,10 +501,38 @@ func (c *Client) gc() {
 			visit(rid)
 		}
 	}
+	// A request in flight for a rid counts as a (provisional) direct subscription
+	// from the moment it is sent: this is what the reference client library does
+	// and what the gateway assumes; it is the most lenient retention rule that a
+	// protocol-following client can apply.
+	for _, r := range c.ReqL {
+		if r.Resp == nil && r.RID != "" && (r.Action == "subscribe" || r.Action == "get") {
+			visit(r.RID)
+		}
+	}
+	dropped := false
 	for _, rid := range sortedKeys(c.Cache) {
 		if !reach[rid] {
 			c.closeInterval(c.Cache[rid], "dropped")
+			if c.Cache[rid].Kind != 'e' {
+				dropped = true
+			}
 			delete(c.Cache, rid)
+		}
+	}
+	if dropped && c.Tainted == "" {
+		// Precondition of known findings F-12/F-14/F-16/F-17: the client releases
+		// its last path to a resource while a request of the same connection is in
+		// flight. The gateway may then keep the subscription alive (unsent) for
+		// that request; an unsent subscription keeps processing events, and what
+		// the pending request and later events deliver is no longer what a client
+		// that dropped the resource needs.
+		for _, r := range c.ReqL {
+			if r.Resp == nil && r.Action != "unsubscribe" && r.Action != "version" {
+				c.Tainted = "drop-while-pending"
+				c.s.stat("tainted_clients_drop_while_pending", 1)
+				break
+			}
 		}
 	}
 }
@@ -492,10 +542,46 @@ func (c *Client) checkRefs(f *Frame) {
 	if c.Tainted != "" {
 		return
 	}
+	for _, rid := range sortedKeys(c.Direct) {
+		if c.Direct[rid] > 0 && c.Cache[rid] == nil {
+			sh := "missing-root"
+			if _, ok := c.getSet[rid]; ok {
+				sh = "missing-root-after-get"
+			} else if c.everHeld(rid) {
+				// known finding F-12: kept as "sent" by a provisional direct count
+				// while the client, which cannot know about that count, dropped it
+				sh = "missing-root-previously-held"
+			}
+			c.violate("C02", "a", sh, "client %s is directly subscribed to %s but was never given its data or an error placeholder (after frame %s)", c.Name, rid, trunc(f.Raw, 300))
+			return
+		}
+	}
 	for _, rid := range sortedKeys(c.Cache) {
 		for _, x := range refsOf(c.Cache[rid]) {
 			if c.Cache[x] == nil {
-				c.s.violate("C02", "a", "dangling", "client %s holds %s with a reference to %s for which it has neither data nor an error placeholder (after frame %s)", c.Name, rid, x, trunc(f.Raw, 300))
+				if _, ok := c.getSet[x]; ok {
+					// known finding F-8: delivered earlier by a get response (which the
+					// client does not retain) and therefore treated as sent by the gateway
+					c.violate("C02", "a", "dangling-after-get", "client %s holds %s with a reference to %s which the gateway delivered only in the response of an earlier get request (after frame %s)", c.Name, rid, x, trunc(f.Raw, 300))
+					return
+				}
+				if c.DeletedSeen[rid] {
+					// known finding F-15: a deleted resource that is still referenced is
+					// sent again, its children are not
+					c.violate("C02", "a", "dangling-deleted-parent", "client %s holds deleted resource %s with a reference to %s for which it has neither data nor an error placeholder (after frame %s)", c.Name, rid, x, trunc(f.Raw, 300))
+					return
+				}
+				if c.s.getPending(c.expandCID(x)) {
+					// known finding F-16: a child that is still loading is marked as sent
+					// when a parent that was unsent (and kept processing events) is sent again
+					c.violate("C02", "a", "dangling-child-loading", "client %s holds %s with a reference to %s whose get request is still in flight (after frame %s)", c.Name, rid, x, trunc(f.Raw, 300))
+					return
+				}
+				if c.everHeld(x) {
+					c.violate("C02", "a", "dangling-previously-held", "client %s holds %s with a reference to %s which it held earlier and has dropped, but which the gateway still treats as sent (after frame %s)", c.Name, rid, x, trunc(f.Raw, 300))
+					return
+				}
+				c.violate("C02", "a", "dangling"+c.resentSuffix(c.Cache[rid]), "client %s holds %s with a reference to %s for which it has neither data nor an error placeholder (after frame %s)", c.Name, rid, x, trunc(f.Raw, 300))
 				return
 			}
 		}
@@ -513,12 +599,12 @@ func (c *Client) onResponse(f *Frame) {
 	s := c.s
 	r := c.Reqs[*f.ID]
 	if r == nil {
-		s.violate("C07", "a", "unknown-id", "client %s received a response for id %d which it never sent: %s", c.Name, *f.ID, trunc(f.Raw, 200))
+		c.violate("C07", "a", "unknown-id", "client %s received a response for id %d which it never sent: %s", c.Name, *f.ID, trunc(f.Raw, 200))
 		return
 	}
 	r.RespN++
 	if r.RespN > 1 {
-		s.violate("C07", "a", "duplicate", "client %s received a second response for id %d (%s): %s", c.Name, *f.ID, r.Method, trunc(f.Raw, 200))
+		c.violate("C07", "a", "duplicate", "client %s received a second response for id %d (%s): %s", c.Name, *f.ID, r.Method, trunc(f.Raw, 200))
 		return
 	}
 	r.Resp = f
@@ -551,8 +637,17 @@ func (c *Client) onResponse(f *Frame) {
 		if f.Error == nil {
 			var rs resourceSet
 			json.Unmarshal(f.Result, &rs)
-			c.addSet(&rs, f)
+			for _, rid := range c.addSet(&rs, f) {
+				c.getSet[rid] = len(c.Frames) - 1
+			}
 			s.oracleOnHandOver(c, r.RID, f, r)
+		}
+		// see genCoreClientOp: get overlapping other requests of the connection
+		for _, o := range c.ReqL {
+			if o != r && o.Action != "unsubscribe" && o.Action != "version" && o.Seq < f.Seq && o.Resp == nil && c.Tainted == "" {
+				c.Tainted = "get-overlap"
+				s.stat("tainted_clients_get_overlap", 1)
+			}
 		}
 	case "unsubscribe":
 		s.oracleUnsubscribe(c, r, f, n)
@@ -582,7 +677,7 @@ func (c *Client) onResponse(f *Frame) {
 				if e, isErr := rs.Errors[rid]; isErr {
 					var eo ErrObj
 					json.Unmarshal(e, &eo)
-					if eo.Code != "system.accessDenied" {
+					if !s.accessRefused(c, rid, r) {
 						// the gateway keeps a direct subscription on a resource whose get
 						// failed; the protocol text does not say whether that counts
 						c.Fuzzy[rid] = true
@@ -619,7 +714,7 @@ func (c *Client) onEvent(f *Frame) {
 	s := c.s
 	i := strings.LastIndexByte(f.Event, '.')
 	if i < 0 {
-		s.violate("C02", "b", "eventname", "client %s received an event without resource id: %s", c.Name, f.Raw)
+		c.violate("C02", "b", "eventname", "client %s received an event without resource id: %s", c.Name, f.Raw)
 		return
 	}
 	rid, name := f.Event[:i], f.Event[i+1:]
@@ -628,6 +723,12 @@ func (c *Client) onEvent(f *Frame) {
 		s.oracleUnsubEvent(c, rid, f)
 		c.Direct[rid] = 0
 		c.Revoked[rid] = f.Step
+		// known finding F-3b: an unsubscribe event also removes the provisional
+		// counts of requests still in flight for the same rid
+		if c.Tainted == "" && c.provisionalRID(rid, nil) {
+			c.Tainted = "F-3b"
+			s.stat("tainted_clients_unsub_event", 1)
+		}
 		if held != nil {
 			c.closeInterval(held, "unsubscribe")
 		}
@@ -644,11 +745,21 @@ func (c *Client) onEvent(f *Frame) {
 		return
 	}
 	if held == nil || held.Kind == 'e' {
-		s.violate("C02", "b", "stray-"+evClass(name), "client %s received event %s for %s which it does not hold: %s", c.Name, name, rid, trunc(f.Raw, 300))
+		if c.strayAfterGet(rid) {
+			c.violate("C02", "b", "stray-after-get-response", "client %s received event %s for %s right after the response of a get request that delivered it (events queued while the get was loading are flushed to a client that holds nothing): %s", c.Name, name, rid, trunc(f.Raw, 200))
+			return
+		}
+		if c.everHeld(rid) {
+			// known finding F-14: the gateway keeps forwarding events of a resource
+			// the client has released while it still keeps the subscription alive
+			c.violate("C02", "b", "stray-previously-held", "client %s received event %s for %s which it no longer holds (it held it earlier): %s", c.Name, name, rid, trunc(f.Raw, 300))
+			return
+		}
+		c.violate("C02", "b", "stray-"+evClass(name), "client %s received event %s for %s which it does not hold: %s", c.Name, name, rid, trunc(f.Raw, 300))
 		return
 	}
 	if held.Deleted {
-		s.violate("C03", "a", "after-delete", "client %s received event %s for %s after its delete event", c.Name, name, rid)
+		c.violate("C03", "a", "after-delete", "client %s received event %s for %s after its delete event", c.Name, name, rid)
 		return
 	}
 	// split the resource set from the event data
@@ -672,13 +783,13 @@ func (c *Client) onEvent(f *Frame) {
 	switch name {
 	case "change":
 		if held.Kind != 'm' {
-			s.violate("C02", "c", "change-on-collection", "client %s received a change event for collection %s", c.Name, rid)
+			c.violate("C02", "c", "change-on-collection", "client %s received a change event for collection %s", c.Name, rid)
 			return
 		}
 		c.addSet(&rs, f)
 		var vals map[string]any
 		if err := json.Unmarshal(dm["values"], &vals); err != nil {
-			s.violate("C02", "c", "change-shape", "client %s: change event without values object: %s", c.Name, trunc(f.Raw, 200))
+			c.violate("C02", "c", "change-shape", "client %s: change event without values object: %s", c.Name, trunc(f.Raw, 200))
 			return
 		}
 		for k, v := range vals {
@@ -690,7 +801,7 @@ func (c *Client) onEvent(f *Frame) {
 		}
 	case "add":
 		if held.Kind != 'c' {
-			s.violate("C02", "c", "add-on-model", "client %s received an add event for model %s", c.Name, rid)
+			c.violate("C02", "c", "add-on-model", "client %s received an add event for model %s", c.Name, rid)
 			return
 		}
 		c.addSet(&rs, f)
@@ -700,7 +811,7 @@ func (c *Client) onEvent(f *Frame) {
 		}
 		json.Unmarshal(f.Data, &ae)
 		if ae.Idx == nil || *ae.Idx < 0 || *ae.Idx > len(held.Coll) {
-			s.violate("C02", "c", "add-index", "client %s: add event index out of bounds for %s (len %d): %s", c.Name, rid, len(held.Coll), trunc(f.Raw, 200))
+			c.violate("C02", "c", "add-index"+c.resentSuffix(held), "client %s: add event index out of bounds for %s (len %d): %s", c.Name, rid, len(held.Coll), trunc(f.Raw, 200))
 			return
 		}
 		held.Coll = append(held.Coll, nil)
@@ -708,7 +819,7 @@ func (c *Client) onEvent(f *Frame) {
 		held.Coll[*ae.Idx] = ae.Value
 	case "remove":
 		if held.Kind != 'c' {
-			s.violate("C02", "c", "remove-on-model", "client %s received a remove event for model %s", c.Name, rid)
+			c.violate("C02", "c", "remove-on-model", "client %s received a remove event for model %s", c.Name, rid)
 			return
 		}
 		var re struct {
@@ -716,16 +827,90 @@ func (c *Client) onEvent(f *Frame) {
 		}
 		json.Unmarshal(f.Data, &re)
 		if re.Idx == nil || *re.Idx < 0 || *re.Idx >= len(held.Coll) {
-			s.violate("C02", "c", "remove-index", "client %s: remove event index out of bounds for %s (len %d): %s", c.Name, rid, len(held.Coll), trunc(f.Raw, 200))
+			c.violate("C02", "c", "remove-index"+c.resentSuffix(held), "client %s: remove event index out of bounds for %s (len %d): %s", c.Name, rid, len(held.Coll), trunc(f.Raw, 200))
 			return
 		}
 		held.Coll = append(held.Coll[:*re.Idx:*re.Idx], held.Coll[*re.Idx+1:]...)
 	case "delete":
 		held.Deleted = true
+		c.DeletedSeen[rid] = true
 		c.closeInterval(held, "delete")
 	}
 	c.gc()
 	c.checkRefs(f)
+}
+
+// strayAfterGet: the stray event belongs to the flush that directly follows
+// the response of a get request which delivered rid (known finding F-7).
+func (c *Client) strayAfterGet(rid string) bool {
+	at, ok := c.getSet[rid]
+	if !ok {
+		return false
+	}
+	for i := at + 1; i < len(c.Frames)-1; i++ {
+		f := c.Frames[i]
+		if f.Event == "" {
+			return false
+		}
+		j := strings.LastIndexByte(f.Event, '.')
+		if j < 0 {
+			return false
+		}
+		if _, ok := c.getSet[f.Event[:j]]; !ok || c.getSet[f.Event[:j]] != at {
+			return false
+		}
+	}
+	return true
+}
+
+func (c *Client) resentSuffix(h *CRes) string {
+	if h != nil && h.iv != nil && c.handedBefore(h.iv) {
+		return "-resent"
+	}
+	return ""
+}
+
+// violate records a violation attributed to this client. Only the first one
+// per client and run is kept: once the reference model and the gateway
+// disagree, whatever follows on that connection is a consequence.
+func (c *Client) violate(prop, clause, shape, format string, a ...any) {
+	if c.failedProps == nil {
+		c.failedProps = map[string]bool{}
+	}
+	// a broken resource set or stray event (C02) also derails the client's
+	// copies (C01) and event lists (C03)
+	if c.failedProps[prop] || ((prop == "C01" || prop == "C03") && c.failedProps["C02"]) {
+		c.s.stat("suppressed_followup_violations", 1)
+		return
+	}
+	c.failedProps[prop] = true
+	if c.Failed == "" {
+		c.Failed = prop + "/" + clause + "/" + shape
+	}
+	c.s.violate(prop, clause, shape, format, a...)
+}
+
+// everHeld: the client was handed rid before (it has an earlier holding interval).
+func (c *Client) everHeld(rid string) bool {
+	for _, iv := range c.Ivs {
+		if iv.RID == rid {
+			return true
+		}
+	}
+	return false
+}
+
+// handedBefore: an interval for the same rid precedes iv on this client.
+func (c *Client) handedBefore(iv *Interval) bool {
+	for _, o := range c.Ivs {
+		if o == iv {
+			return false
+		}
+		if o.RID == iv.RID && o.CloseWhy != "unsubscribe" {
+			return true
+		}
+	}
+	return false
 }
 
 func evClass(name string) string {
